@@ -232,7 +232,10 @@ impl Prop for C16 {
             records.push(match g {
                 Glyph::Empty => Vec::new(),
                 Glyph::Simple(s) => ig::write_simple(s, s.bbox(), rng, &enc),
-                Glyph::Composite(c) => ig::write_composite(c, ig::BBox { x_min: 0, y_min: 0, x_max: 0, y_max: 0 }),
+                Glyph::Composite(c) => {
+                    let nc = if rng.chance(1, 5) { *rng.pick(&[-2i16, -7, -32768]) } else { -1 };
+                    ig::write_composite_nc(c, ig::BBox { x_min: 0, y_min: 0, x_max: 0, y_max: 0 }, nc)
+                }
             });
         }
         // generator self-check: the independent reader must read back what was written
